@@ -362,6 +362,353 @@ def structure(chk, w):
                  "together", plan[0].span.loc())
 
 
+def _norm(o):
+    """origin with reference layers and Deref::deref calls removed"""
+    if not isinstance(o, tuple):
+        return o
+    if o[0] in ("ref", "deref"):
+        return _norm(o[1])
+    if o[0] == "call" and o[1].endswith("::deref") and len(o[2]) == 1:
+        return _norm(o[2][0])
+    return tuple(_norm(x) if isinstance(x, tuple) else ([_norm(y) for y in x] if isinstance(x, list) else x)
+                 for x in o)
+
+
+def _subst(o, caps, params):
+    """an origin computed inside a closure body, rewritten in its creator's terms: `_1.k` is the
+    k-th captured value, `_2..` the parameters"""
+    if not isinstance(o, tuple):
+        return o
+    if o[0] == "field" and o[1] in (("local", 1), ("arg", 0)) and o[2][1:].isdigit():
+        k = int(o[2][1:])
+        return caps[k] if k < len(caps) else ("unknown",)
+    if o[0] in ("local", "arg"):
+        n = o[1] if o[0] == "local" else o[1] + 1
+        if n >= 2 and n - 2 < len(params):
+            return params[n - 2]
+        return ("unknown",)
+    return tuple(_subst(x, caps, params) if isinstance(x, tuple) else
+                 ([_subst(y, caps, params) for y in x] if isinstance(x, list) else x) for x in o)
+
+
+def _deep(defuse):
+    class Deep(defuse.DefUse):
+        MAXD = 80
+    return Deep
+
+
+def _closure_result(w, agg, params):
+    """the value a closure returns, in its creator's terms (single-block-result closures only)"""
+    import defuse
+    if not (isinstance(agg, tuple) and agg[0] == "agg" and agg[1].startswith("closure:")):
+        return None
+    f = w.fns.get(agg[1][len("closure:"):]) or next((g for g in w.fns.values() if g.id == agg[1][8:]), None)
+    if f is None or f.body is None:
+        return None
+    du = _deep(defuse)(f.body)
+    return _subst(du.origin_local(0), agg[2], params)
+
+
+def _fit(w, o, n=None):
+    """(sum, count, fee, op, total) when `o` is the reconcile loop's fit test
+    `sum.checked_add(count as u64 * fee).is_some_and(|c| c <= total)`, possibly wrapped as the
+    predicate of Option::filter (the count is then the filtered payload)"""
+    o = _norm(o)
+    if o[0] == "call" and o[1].endswith("::filter") and len(o[2]) == 2:
+        r = _closure_result(w, o[2][1], [("payload", o[2][0])])
+        return _fit(w, r) if r is not None else None
+    if not (o[0] == "call" and o[1].endswith("::is_some_and") and len(o[2]) == 2):
+        return None
+    a = _norm(o[2][0])
+    cmp_ = _closure_result(w, o[2][1], [("c",)])
+    cmp_ = _norm(cmp_) if cmp_ is not None else None
+    if not (a[0] == "call" and a[1].endswith("::checked_add") and cmp_ and cmp_[0] == "bin" and
+            cmp_[1] in ("Le", "Lt") and cmp_[2] == ("c",)):
+        return None
+    s_, m = a[2]
+    if not (m[0] == "bin" and m[1] == "Mul"):
+        return None
+    cnt, fee = m[2], m[3]
+    if cnt[0] == "cast":
+        cnt = cnt[2]
+    return (s_, cnt, fee, cmp_[1], cmp_[3])
+
+
+def _inline(w, o):
+    """origin with calls of locally created closures replaced by the closure's result"""
+    if not isinstance(o, tuple):
+        return o
+    if o[0] == "call" and len(o[2]) == 2 and isinstance(o[2][0], tuple) and o[2][0][0] == "agg" and \
+            o[2][0][1].startswith("closure:") and o[2][1][0] == "agg" and o[2][1][1] == "tuple":
+        r = _closure_result(w, o[2][0], [_inline(w, x) for x in o[2][1][2]])
+        if r is not None:
+            return _norm(r)
+    return tuple(_inline(w, x) if isinstance(x, tuple) else
+                 ([_inline(w, y) for y in x] if isinstance(x, list) else x) for x in o)
+
+
+def _terms(o):
+    if o[0] == "bin" and o[1] == "Add":
+        return _terms(o[2]) + _terms(o[3])
+    return [o]
+
+
+def optimistic(chk, w, split):
+    """OPTIMISTIC: the canonical split reserves preparation fees under the documented model "one padded
+    preparation transaction per FUNDING_OUTPUTS_PER_TX funding notes": the budget for the next part
+    charges ceil(len / F) fees for the parts already chosen, and a candidate part is accepted iff
+    chosen notes + candidate + buffer + ceil((len + 1) / F) fees <= balance. A different count makes the
+    published values a different function of the balance than every other wallet computes."""
+    import defuse
+    import guards
+    b = split.body
+    du = _deep(defuse)(b)
+    F = w.consts.get("zcash_pool_migration::preparation::FUNDING_OUTPUTS_PER_TX", {}).get("v")
+    if not F:
+        chk.fail("OPTIMISTIC", "const/missing", "FUNDING_OUTPUTS_PER_TX not found")
+        return
+
+    def is_F(o):
+        return o == ("const", F) or (o[0] == "constdef" and o[1].endswith("FUNDING_OUTPUTS_PER_TX"))
+
+    def ceil_of(o):
+        """k when o is ceil(k / F) as u64"""
+        if o[0] == "cast":
+            o = o[2]
+        if o[0] == "call" and o[1].endswith("::div_ceil") and len(o[2]) == 2 and is_F(o[2][1]):
+            return o[2][0]
+        if o[0] == "bin" and o[1] == "Div" and is_F(o[3]) and o[2][0] == "bin" and o[2][1] == "Sub" and \
+                o[2][3] == ("const", 1) and o[2][2][0] == "bin" and o[2][2][1] == "Add":
+            x, y = o[2][2][2], o[2][2][3]
+            if is_F(y) or is_F(x):
+                return x if is_F(y) else y
+        if o[0] == "bin" and o[1] == "Div" and is_F(o[3]) and o[2][0] == "bin" and o[2][1] == "Add":
+            x, y = o[2][2], o[2][3]
+            for k, c in ((x, y), (y, x)):
+                if c == ("const", F - 1) or (c[0] == "bin" and c[1] == "Sub" and is_F(c[2]) and c[3] == ("const", 1)):
+                    return k
+        return None
+
+    def fee_term(ts):
+        """(k, rest) when exactly one term is ceil(k / F) * prep_tx_fee"""
+        hit = [(t, ceil_of(t[2] if t[3] == ("arg", 3) else t[3])) for t in ts
+               if t[0] == "bin" and t[1] == "Mul" and ("arg", 3) in (t[2], t[3])]
+        if len(hit) != 1:
+            return None, ts
+        return hit[0][1], [t for t in ts if t is not hit[0][0]]
+    is_len = lambda o: o[0] == "call" and o[1].endswith("::len") and len(o[2]) == 1
+    pushes = [bb for bb, t in b.calls() if t.callee.indirect is None and not b.blocks[bb].cleanup and
+              t.callee.target_p().endswith("::push")]
+    accept = budget = None
+    seen_mul = 0
+    for bi, blk in enumerate(b.blocks):
+        t = blk.term
+        if blk.cleanup or t.kind != "switch" or t.discr is None or t.discr.kind not in ("copy", "move"):
+            continue
+        c = _inline(w, _norm(du.origin(t.discr)))
+        if c[0] != "bin":
+            continue
+        sh = defuse.show(c)
+        if "arg3" not in sh:
+            continue
+        seen_mul += 1
+        if c[1] in ("Le", "Ge") and ("arg", 1) in (c[2], c[3]):
+            cost = c[2] if c[3] == ("arg", 1) else c[3]
+            if (c[1] == "Le") != (c[3] == ("arg", 1)):
+                continue
+            k, rest = fee_term(_terms(cost))
+            guarded = any(any(sw == bi and guards.truth(t, v) is True for sw, v, _tb in guards.edge_conditions(b, pb))
+                          for pb in pushes)
+            accept = (k, rest, guarded, t)
+        elif c[1] == "Lt" and c[2][0] == "call" and c[2][1].endswith("::saturating_sub") and c[2][2][0] == ("arg", 1):
+            k, rest = fee_term(_terms(c[2][2][1]))
+            budget = (k, rest, t)
+    if accept is None or budget is None:
+        chk.fail("OPTIMISTIC", "split/shape", "unconstrained_split no longer has the budget test `balance -sat- "
+                 "committed < min note` and the acceptance test `cost <= balance` over fee reservations "
+                 "(fee-dependent tests seen: %d)" % seen_mul, split.span.loc())
+        return
+    k, rest, t = budget
+    if k is not None and is_len(k) and len(rest) == 1 and rest[0][0] == "local":
+        chk.ok("OPTIMISTIC", "budget: the parts chosen so far are charged ceil(len / %d) preparation fees" % F, sample=True)
+    else:
+        chk.fail("OPTIMISTIC", "split/budget", "the budget for the next part does not charge ceil(len / "
+                 "FUNDING_OUTPUTS_PER_TX) fees for the parts already chosen (count over: %s)" %
+                 (defuse.show(k)[:60] if k is not None else "unrecognised"), t.span.loc())
+    k, rest, guarded, t = accept
+    k_ok = k is not None and k[0] == "bin" and k[1] == "Add" and ((is_len(k[2]) and k[3] == ("const", 1)) or
+                                                                 (is_len(k[3]) and k[2] == ("const", 1)))
+    kinds = sorted("notes" if r[0] == "local" else "crossing" if (r[0] == "call" and r[1].endswith("largest_one_two_five"))
+                   else "buffer" if r == ("field", ("arg", 0), ".buffer_zatoshi") else "?" for r in rest)
+    if k_ok and kinds == ["buffer", "crossing", "notes"] and guarded:
+        chk.ok("OPTIMISTIC", "acceptance: a part is pushed iff chosen notes + part + buffer + ceil((len + 1) / %d) fees "
+               "<= balance" % F, sample=True)
+    else:
+        chk.fail("OPTIMISTIC", "split/acceptance", "a candidate part is not accepted exactly under `chosen notes + part "
+                 "+ buffer + ceil((len + 1) / FUNDING_OUTPUTS_PER_TX) * fee <= balance` (count over: %s; other terms: %s; "
+                 "guards the push: %s)" % (defuse.show(k)[:60] if k is not None else "unrecognised", kinds, guarded),
+                 t.span.loc())
+
+
+def reserve(chk, w, plan):
+    """RESERVE: what the plan reserves for preparation fees. `from_notes(total, fees, .., change)` is
+    given fees = count * fee and change = total - sum(notes) - fees with saturating subtractions, so
+    "notes + fees + change == balance" holds exactly when sum(notes) + count * fee <= total for the
+    notes and the count that are published. Three necessary conditions, on the MIR of plan():
+      fit    every oracle answer that can become the published count passed that very test (same sum,
+             same fee, same total as the publication uses);
+      stale  no part is dropped between that test and publication while the count stays;
+      zero   the count 0 is published only when the split is empty."""
+    import defuse
+    import guards
+    b = plan.body
+    du = _deep(defuse)(b)
+    pub = [(bb, t) for bb, t in b.calls() if t.callee.indirect is None and not b.blocks[bb].cleanup and
+           t.callee.target_p().endswith("DenominationPlan::from_notes")]
+    if len(pub) != 1 or len(pub[0][1].args) < 5:
+        chk.fail("RESERVE", "plan/shape", "plan does not publish through one from_notes call", plan.span.loc())
+        return
+    pbb, pt = pub[0]
+    total = _norm(du.origin(pt.args[0]))
+    fees = _norm(du.origin(pt.args[1]))
+    change = _norm(du.origin(pt.args[4]))
+    ok = fees[0] == "bin" and fees[1] == "Mul"
+    cnt = fees[2][2] if ok and fees[2][0] == "cast" else (fees[2] if ok else None)
+    fee = fees[3] if ok else None
+    ssub = lambda o: o[0] == "call" and o[1].endswith("::saturating_sub") and len(o[2]) == 2
+    if not (ok and cnt[0] == "local" and ssub(change) and ssub(change[2][0]) and change[2][1] == fees and
+            change[2][0][2][0] == total):
+        chk.fail("RESERVE", "plan/publication", "the published fees are not `count * fee` with change = total - "
+                 "sum(notes) - fees (fees: %s; change: %s)" % (defuse.show(fees)[:80], defuse.show(change)[:120]),
+                 pt.span.loc())
+        return
+    chk.ok("RESERVE", "publication: fees = count * prep_tx_fee, change = total -sat- sum(notes) -sat- fees, total is "
+           "the balance handed to from_notes", sample=True)
+    notes_sum = change[2][0][2][1]
+    V = cnt[1]
+    # the vectors whose truncation invalidates a count
+    pops = [bb for bb, t in b.calls() if t.callee.indirect is None and not b.blocks[bb].cleanup and
+            t.callee.target_p().rsplit("::", 1)[-1] in ("pop", "truncate", "remove", "clear", "push", "insert",
+                                                        "swap_remove", "drain", "retain")
+            and t.args and _mut_ref_target(b, du, t.args[0]) is not None]
+    empt = set()
+    for bb, t in b.calls():
+        if t.callee.indirect is None and t.callee.target_p().endswith("::is_empty") and t.dest is not None \
+                and not b.blocks[bb].cleanup:
+            nxt = b.blocks[t.target].term if t.target is not None else None
+            if nxt is not None and nxt.kind == "switch" and nxt.discr is not None and \
+                    nxt.discr.kind in ("copy", "move") and nxt.discr.place.local == t.dest.local:
+                for v, tb in list(nxt.arms) + [("else", nxt.otherwise)]:
+                    if tb is not None and guards.truth(nxt, v) is True:
+                        empt.add((t.target, tb))
+    defs = [(k, bb, x) for k, bb, x in du.defs.get(V, [])]
+
+    def clear_reach(start_bb, cut=frozenset(), from_entry=False):
+        """blocks reachable from the end of start_bb (or from entry up to and including blocks) without
+        crossing another definition of the count and without the edges in `cut`"""
+        seen, work = set(), [start_bb]
+        first = True
+        while work:
+            x = work.pop()
+            if x in seen:
+                continue
+            if not first and not from_entry and any(db == x for _k, db, _x in defs):
+                seen.add(x)
+                continue
+            seen.add(x)
+            first = False
+            for y in b.blocks[x].term.succs():
+                if (x, y) not in cut and not b.blocks[y].cleanup:
+                    work.append(y)
+        return seen
+
+    def preds_reach(target, within):
+        seen, work = set(), [target]
+        pr = guards._preds(b)
+        while work:
+            x = work.pop()
+            if x in seen or x not in within:
+                continue
+            seen.add(x)
+            work.extend(pr.get(x, ()))
+        return seen
+    n_or = 0
+    for k, dbb, x in defs:
+        if k != "stmt" or x.rv.kind != "use":
+            chk.fail("RESERVE", "count/def", "the published count is defined by something other than an "
+                     "assignment", x.span.loc())
+            continue
+        val = _norm(du.origin(x.rv.ops[0]))
+        fwd = clear_reach(dbb)
+        if val == ("const", 0):
+            # zero: is there a way entry -> def -> publication that never takes an `is_empty` true edge?
+            to_def = set()
+            seen, work = set(), [0]
+            while work:
+                y = work.pop()
+                if y in seen:
+                    continue
+                seen.add(y)
+                for z in b.blocks[y].term.succs():
+                    if (y, z) not in empt and not b.blocks[z].cleanup:
+                        work.append(z)
+            to_def = seen
+            after = clear_reach(dbb, cut=empt)
+            if dbb in to_def and pbb in after:
+                chk.fail("RESERVE", "count/zero-nonempty", "a count of 0 (no preparation fee) can be published "
+                         "for a split that was not found empty", x.span.loc())
+            else:
+                chk.ok("RESERVE", "zero: the count 0 reaches publication only over the true edge of an is_empty "
+                       "test of the split", sample=True)
+            continue
+        # an oracle answer
+        n_or += 1
+        shown = defuse.show(val)
+        if "<indirect>" not in shown and "::call" not in shown and "call(" not in shown:
+            chk.fail("RESERVE", "count/source", "the published count is neither 0 nor an answer of the "
+                     "preparation-cost oracle: %s" % shown[:100], x.span.loc())
+            continue
+        fit = None
+        v0 = val
+        if v0[0] == "field" and v0[1][0] == "variant" and v0[1][2].endswith("Some"):
+            fit = _fit(w, v0[1][1])
+            if fit is not None:
+                payload = fit[1]
+                fit = fit if payload[0] == "payload" else None
+        if fit is None:
+            for sw, v, tb in guards.edge_conditions(b, dbb):
+                t = b.blocks[sw].term
+                if guards.truth(t, v) is not True or t.discr is None or t.discr.kind not in ("copy", "move"):
+                    continue
+                f2 = _fit(w, du.origin(t.discr))
+                if f2 is not None and f2[1] == val:
+                    fit = f2
+                    break
+        if fit is None:
+            chk.fail("RESERVE", "count/unfitted", "an oracle answer becomes the published count without having "
+                     "passed `sum(notes) + count * fee <= total` (count: %s)" % shown[:100], x.span.loc())
+        else:
+            s_, _c, f_, op, t_ = fit
+            diffs = [nm for nm, a, e in (("sum of prepared notes", s_, notes_sum), ("fee", f_, fee),
+                                         ("total", t_, total)) if a != e]
+            if diffs:
+                chk.fail("RESERVE", "count/fit-mismatch", "the fit test an oracle answer passes is not over the "
+                         "published quantities: %s differ(s) (test: %s + n * %s %s %s)" %
+                         (diffs, defuse.show(s_)[:60], defuse.show(f_)[:30], op, defuse.show(t_)[:30]), x.span.loc())
+            else:
+                chk.ok("RESERVE", "fit: the oracle answer that becomes the count passed sum(notes) + n * fee %s total "
+                       "over the same sum, fee and total the publication subtracts" % ("<=" if op == "Le" else "<"),
+                       sample=True)
+        stale = [pb for pb in pops if pb in fwd and pbb in clear_reach(pb)]
+        if stale:
+            chk.fail("RESERVE", "count/stale", "after an oracle answer is taken as the count, parts can still be "
+                     "dropped before publication while the count stays", b.blocks[stale[0]].term.span.loc())
+        else:
+            chk.ok("RESERVE", "stale: no truncation of the split lies between taking the count and publishing it")
+    if n_or == 0:
+        chk.fail("RESERVE", "count/no-oracle", "no oracle answer ever becomes the published count", plan.span.loc())
+
+
 def main(tier):
     chk = Check("C16", "other", tier)
     chk.explanation = (
@@ -377,6 +724,8 @@ def main(tier):
     chk.rule("BOUND", "every value entering the canonical split is range-tested", floor=3)
     chk.rule("CAP", "every push is under the note-cap test", floor=1)
     chk.rule("PREFIX", "reconciliation only truncates the canonical split", floor=2)
+    chk.rule("RESERVE", "the reserved preparation fee is for the published notes and passed the fit test", floor=4)
+    chk.rule("OPTIMISTIC", "the split reserves fees under the documented one-transaction-per-F-notes model", floor=2)
     chk.rule("control", "positive control", floor=1)
     w = zf.World(extract.facts_dir("all"), ["zcash_pool_migration", "zcash_pool_migration_memory", "zcash_protocol",
                                             "zcash_client_sqlite"])
@@ -410,6 +759,13 @@ def main(tier):
                          f.span.loc())
     chk.analysed["planning_functions"] = [f.p for f in targets]
     structure(chk, w)
+    try:
+        optimistic(chk, w, w.fn(ST + "unconstrained_split"))
+    except KeyError:
+        chk.fail("OPTIMISTIC", "split/missing", "unconstrained_split not found")
+    for f in w.fns.values():
+        if f.p.endswith("DenominationStrategy>::plan") and "CanonicalOneTwoFive" in f.p and not f.is_closure():
+            reserve(chk, w, f)
     # control: a function that really draws from its generator must be flagged
     draw = None
     for f in w.fns.values():
